@@ -172,8 +172,11 @@ static void schedule() {
     current = pick;
     if (pick == me) return;
     stats["context_switches"]++;
+    // after the wake the chosen thread runs for real: from here on this thread may only touch its own record
+    // (the thread table itself can be reallocated by a pthread_create of the thread that now runs)
+    Th *self = me >= 0 ? ths[me] : nullptr;
     futex_wake(&t->go);
-    if (me >= 0 && ths[me]->st != DONE) futex_wait(&ths[me]->go);
+    if (self && self->st != DONE) futex_wait(&self->go);
     return;
   }
 }
